@@ -660,6 +660,7 @@ def run(chk, repo, tier):
     run_k9(chk, repo)
     run_k10(chk, repo)
     run_k11(chk, repo)
+    run_k12_k13(chk, repo)
 
 
 def _record_tests(fn):
@@ -839,3 +840,66 @@ def run_k11(chk, repo):
                 chk.instance(K11, f'{f.qualname}: {unparse(c)[:60]} examined')
     if n == 0:
         raise AnalysisError('K11: no os.replace / os.rename found in pharmpy.workflows')
+
+
+def run_k12_k13(chk, repo):
+    """K12: what is stored under a key besides the model itself (results, metadata, local files) is not a function of the key:
+    a later store replaces it, so its write is not skipped because the destination already exists. K13: every directory the
+    database creates may already be there (left by an interrupted store, created by a concurrent one): mkdir tolerates it"""
+    from sa.cfg import CFG
+    from sa import reach
+    K12 = chk.rule('K12', 'transaction store_modelfit_results / store_metadata / store_local_file: the write is not conditional '
+                          'on the destination not existing yet (the key hashes the model only)', floor=3)
+    mm = repo.module('pharmpy.workflows.model_database.local_directory')
+    tc = mm.classes.get('LocalModelDirectoryDatabaseTransaction')
+    if tc is None:
+        raise AnalysisError('K12: LocalModelDirectoryDatabaseTransaction not found')
+    WRITES = {'to_json', 'to_csv', 'dump', 'copy2', 'copy', 'copyfile', 'write_text', 'write_bytes', 'write'}
+    n = 0
+    for mn in ('store_modelfit_results', 'store_metadata', 'store_local_file'):
+        f = tc.methods.get(mn)
+        if f is None:
+            raise AnalysisError(f'K12: {tc.name}.{mn} not found')
+        cfg = CFG(f.node)
+        wnodes = [nd for nd in cfg.nodes.values() if nd.ast is not None and nd.kind in ('stmt', 'with_enter') and any(
+            isinstance(c, ast.Call) and (call_name(c) or '').split('.')[-1] in WRITES | {'open'} for c in ast.walk(
+                nd.ast if isinstance(nd.ast, ast.AST) else ast.Module(body=[], type_ignores=[])))]
+        if not wnodes:
+            raise AnalysisError(f'K12: no write found in {mn}')
+        for w in wnodes:
+            n += 1
+            bad = None
+            for t in [x for x in cfg.nodes.values() if x.kind == 'test']:
+                for lab in ('true', 'false'):
+                    if not cfg.edge_dominates(t.id, lab, w.id):
+                        continue
+                    for c in [c for c in ast.walk(t.ast) if isinstance(c, ast.Call) and isinstance(c.func, ast.Attribute)
+                              and c.func.attr in ('is_file', 'exists', 'is_dir')]:
+                        try:
+                            recv = unparse(reach.expand_expr(cfg, t.id, c.func.value))
+                        except Exception:
+                            recv = unparse(c.func.value)
+                        if 'self.database' in recv or 'self.key' in recv:
+                            bad = (t, c, lab)
+            chk.instance(K12, f'{mn}: `{w.text()[:50]}` independent of the destination existing: {bad is None}')
+            if bad:
+                t, c, lab = bad
+                chk.violation(K12, mm.rel, f.qualname, f'{w.text()[:60]} under `{unparse(t.ast)[:60]}`',
+                              'the write depends on whether the destination exists already: a second store of the same model '
+                              '(same key) with other results / metadata is silently dropped', line=t.line,
+                              witness='store the entry with results r1, then with results r2 (same model): retrieve returns r1')
+    K13 = chk.rule('K13', 'model database: every mkdir tolerates an existing directory (exist_ok=True)', floor=8)
+    for f in dict.values(mm.functions):
+        for c in [c for c in ast.walk(f.node) if isinstance(c, ast.Call) and isinstance(c.func, ast.Attribute)
+                  and c.func.attr in ('mkdir', 'makedirs')]:
+            if f.parent is not None:
+                continue
+            ok = any(k.arg == 'exist_ok' and isinstance(k.value, ast.Constant) and k.value.value is True for k in c.keywords)
+            chk.instance(K13, f'{f.qualname}: {unparse(c)[:60]}: {ok}')
+            if not ok:
+                chk.violation(K13, mm.rel, f.qualname, unparse(c)[:80],
+                              'the directory can exist already - left behind by a store that died after creating it, or created '
+                              'by a concurrent store: every later store that needs it fails with FileExistsError',
+                              line=c.lineno,
+                              witness='kill a store between creating .datasets/.hash/<hash>/ and touching the entry inside it, '
+                                      'then store another model that shares the dataset')
